@@ -67,9 +67,12 @@ def make_structures():
             # two separate 2-state components with self-loops everywhere: [{0,1}] is met by both,
             # [{0},{1}] by none - fairness lists with equal unions but different fair states
             Kripke(S=[0, 1, 2, 3], R=[(0, 2), (2, 0), (0, 0), (2, 2), (1, 3), (3, 1), (1, 1), (3, 3), (0, 1)],
-                   L={0: {'p'}, 1: {'q'}, 2: {'p', 'q'},
-                      # labels spelled like numbered fresh atoms for E G q, which is false in state 3
-                      3: set('[E(G(q))]#%d' % i for i in range(80)) | set('[E(G(q))](%d)' % i for i in range(8))}),
+                   L={0: {'p', 'fair'}, 1: {'q'}, 2: {'p', 'q'},
+                      # labels spelled like numbered fresh atoms for E G q, which is false in state 3, and
+                      # like numbered fair labels ('fair' itself is an atom of state 0; state 3 has no fair
+                      # path under [{0}]): a numbering that is not re-checked against the atoms collides
+                      3: set('[E(G(q))]#%d' % i for i in range(80)) | set('[E(G(q))](%d)' % i for i in range(8)) |
+                      set('fair%d' % i for i in range(600))}),
             _obj_structure()]
 
 
@@ -224,10 +227,12 @@ def scope(tier, seed):
     n = len(alphabet())
     return {'operations': n, 'depth 2': 'all %d ordered pairs' % (n * n),
             'depth 3': 'all triples of a %d-operation sub-alphabet' % len(sub_alphabet(12 if tier == 'quick' else 26)),
-            'pool': '3 structures (2-state with self-loop; 3-state with two SCCs whose labels contain '
-                    '"fair" and "[A(G(p))]" and a non-empty library fair set; 1-state), 4 formulas per '
-                    'checker (CTL-native, LTL fallback, E-rewrite, nested quantifier), F in '
-                    '{None, [], [{0}], [{0},{1}]}, object / text with caller parser / text with parser=None'}
+            'pool': '5 structures (2-state with self-loop; 3-state with two SCCs whose labels contain "fair", '
+                    '"[A(G(p))]" and numbered fresh-name look-alikes; 1-state; two 2-state components with a user '
+                    'atom "fair" and atoms fair0..fair599 / [E(G(q))]#0..79 on a state without a fair path; '
+                    'identity-hashed state objects), 4 formulas per checker (CTL-native, LTL fallback, E-rewrite, '
+                    'nested quantifier), F in {None, [], [{0}], [{0},{1}], [{0,1}]}, object / text with caller '
+                    'parser / text with parser=None, ill-formed calls that must raise'}
 
 
 def plan(tier, seed):
